@@ -250,14 +250,28 @@ Archs == <<"msgpack", "json", "xml">> \o (IF CsvOk THEN <<"csv">> ELSE <<>>)
 ExpA == Obs(APop)
 ExpB == Obs(AFreshR)
 
-DevEntry(a) ==
-  LET ma == MPop(a, AllDevs) mb == MFresh(a, AllDevs) IN
+\* deviations that can apply on an archive
+ArchDevs(a) == IF a = "json" THEN {DevReused, DevJsonNull}
+               ELSE IF a = "xml" THEN {DevReused, DevXmlStr, DevXmlCont, DevXmlOver}
+               ELSE {DevReused}
+
+\* The observation depends on WHICH deviations the tree under test still has (a repaired tree has fewer).  Starting
+\* from all deviations of the archive, a deviation is switched off only if its guard was true somewhere (fv): with
+\* the others the execution is the same.  Result: every subset of deviations that yields a distinct execution.
+RECURSIVE DevSubsets(_, _)
+DevSubsets(a, ds) ==
+  LET F == (MPop(a, ds).fv \cup MFresh(a, ds).fv) \cap ds IN
+  {ds} \cup UNION {DevSubsets(a, ds \ {d}) : d \in F}
+
+DevEntry(a, ds) ==
+  LET ma == MPop(a, ds) mb == MFresh(a, ds) IN
   [arch |-> a, dev |-> JoinDevs(ma.dv \cup mb.dv, 1, ""), a |-> MObs(ma), b |-> MObs(mb)]
 
-DevEntries == SelectSeq([i \in 1..Len(Archs) |-> DevEntry(Archs[i])], LAMBDA e : e.a # ExpA \/ e.b # ExpB)
+DevEntrySet == UNION {{DevEntry(Archs[i], ds) : ds \in DevSubsets(Archs[i], ArchDevs(Archs[i]))} : i \in 1..Len(Archs)}
+DevEntries == {e \in DevEntrySet : e.a # ExpA \/ e.b # ExpB}
 
 \* a difference between M-with-deviations and A must be attributed to at least one named deviation
-DeviationsExplainEveryDifference == \A i \in 1..Len(DevEntries) : DevEntries[i].dev # ""
+DeviationsExplainEveryDifference == \A e \in DevEntries : e.dev # ""
 
 Scenario ==
   [t |-> TName(T), place |-> place, mode |-> mode, est |-> est, estn |-> IF doc[1] \in {"arr", "obj"} THEN EstOf(est, Len(doc[2])) ELSE 0,
